@@ -266,6 +266,46 @@ func (w *World) AddZone(name string, o ZoneOpts) *Zone {
 	return z
 }
 
+// AddServer starts one more authoritative server for an existing zone and
+// publishes it: a new in-zone name server host nsN.<zone> with its own
+// advertised address, added to the zone's NS RRset, to the zone's address
+// records and to the parent's delegation (NS + glue). Use it for zones whose
+// servers must behave differently from one another (srv.SetBehaviour).
+func (w *World) AddServer(zoneName string) *Server {
+	w.mu.Lock()
+	defer w.mu.Unlock()
+	z := w.Zones[lc(zoneName)]
+	if z == nil {
+		panic("AddServer: no zone " + zoneName)
+	}
+	srv := w.NewServer(z.Name)
+	srv.Attach(z)
+	host := fmt.Sprintf("ns%d.%s", len(z.Servers), strings.TrimPrefix("."+z.Name, "."))
+	if z.Name == "." {
+		host = fmt.Sprintf("ns%d.root-servers.test.", len(z.Servers))
+	}
+	z.mu.Lock()
+	z.put(&dns.NS{Hdr: dns.RR_Header{Name: z.Name, Rrtype: dns.TypeNS, Class: dns.ClassINET, Ttl: 3600}, Ns: host})
+	a := &dns.A{Hdr: dns.RR_Header{Name: host, Rrtype: dns.TypeA, Class: dns.ClassINET, Ttl: 3600}, A: srv.IP}
+	if dns.IsSubDomain(z.Name, host) {
+		z.put(a)
+	}
+	z.sigCache = map[string]*dns.RRSIG{}
+	z.mu.Unlock()
+	if z.Parent != nil {
+		z.Parent.mu.Lock()
+		if d := z.Parent.Children[z.Name]; d != nil {
+			d.NS = append(d.NS, host)
+			g := dns.Copy(a)
+			g.Header().Ttl = d.NSTTL
+			d.Glue = append(d.Glue, g)
+		}
+		z.Parent.sigCache = map[string]*dns.RRSIG{}
+		z.Parent.mu.Unlock()
+	}
+	return srv
+}
+
 // Delegation returns the parent's delegation record for a zone.
 func (w *World) Delegation(name string) *Delegation {
 	z := w.Zones[lc(name)]
